@@ -3,57 +3,93 @@
    the diagnostics a run of the experimental compiler reports are the same, in the same order,
    for every parallelism and every schedule").
 
-   A workspace is a sequence of files; file i is called Names[i] and has
+   A universe is a sequence of files; file i is called Names[i] and has
+     inws    : whether it is one of the files handed to the compiler (the WORKSPACE); the others
+               exist for the Opener and are compiled only when something imports them
      imports : a set of file indices (an index may be the file itself: a self-import),
      missing : whether it additionally imports a file that does not exist,
-     kind    : one local defect
+     kind    : one defect
                  "ok"       none
                  "unknown"  a field whose type is not defined anywhere
                  "dup"      the same message declared twice in the file
                  "syntax"   a field declaration without `=`
-                 "shared"   declares the message `Shared`, which every other "shared" file of the
-                            workspace declares too (a cross-file duplicate symbol)
+                 "shared"   declares the message `Shared`, which every other "shared" file declares
+                            too (a cross-file duplicate symbol)
+                 "extclash" extends the message ExtBase (declared in one more file, imported by
+                            every "extclash" file and never part of the workspace) with extension
+                            number 100, like every other "extclash" file (a cross-file duplicate
+                            extension number)
    Every file uses one type of each file it imports, so imports are never unused.
 
-   The operators below compute the features the verdict classes are keyed on (Cyclic) and the
-   diagnostics that MUST be present for acyclic workspaces (Expect), from the language rules. *)
+   The operators below compute the features the verdict classes are keyed on (Cyclic), the
+   diagnostics that MUST be present for acyclic workspaces (Expect) and the defect kinds whose
+   presence the language rules as written here do not settle (Unsettled).                      *)
 EXTENDS Naturals, Sequences, FiniteSets
 
 Names == << "a", "b", "c", "d" >>
 
 Idx(ws) == 1..Len(ws)
 
-(* files reachable from i through one or more imports *)
+(* files reachable from the set S through one or more imports *)
 RECURSIVE ReachFrom(_, _, _)
 ReachFrom(ws, frontier, seen) ==
   LET next == UNION {ws[i].imports : i \in frontier} \ seen
   IN IF next = {} THEN seen ELSE ReachFrom(ws, next, seen \cup next)
 ReachPlus(ws, i) == ReachFrom(ws, {i}, {})
 
-Cyclic(ws)      == \E i \in Idx(ws) : i \in ReachPlus(ws, i)
-SelfImport(ws)  == \E i \in Idx(ws) : i \in ws[i].imports
-(* files that are on a cycle or import (transitively) a file that is *)
-TaintedByCycle(ws) == {i \in Idx(ws) : \E j \in ReachPlus(ws, i) \cup {i} : j \in ReachPlus(ws, j)}
+Workspace(ws) == {i \in Idx(ws) : ws[i].inws}
+(* the files a compile of the workspace touches *)
+Compiled(ws)  == Workspace(ws) \cup ReachFrom(ws, Workspace(ws), {})
 
-SharedFiles(ws) == {i \in Idx(ws) : ws[i].kind = "shared"}
+(* only what is compiled matters *)
+Cyclic(ws)      == \E i \in Compiled(ws) : i \in ReachPlus(ws, i)
+SelfImport(ws)  == \E i \in Compiled(ws) : i \in ws[i].imports
+TaintedByCycle(ws) == {i \in Compiled(ws) : \E j \in ReachPlus(ws, i) \cup {i} : j \in ReachPlus(ws, j)}
+
+OfKind(ws, k) == {i \in Compiled(ws) : ws[i].kind = k}
+
+(* A cross-file clash of kind k is certainly diagnosed when two files of that kind are both in the
+   workspace, or are both directly imported by (or are) one compiled file ... *)
+SeenTogether(ws, k) ==
+  \/ Cardinality(OfKind(ws, k) \cap Workspace(ws)) >= 2
+  \/ \E f \in Compiled(ws) : Cardinality(OfKind(ws, k) \cap (ws[f].imports \cup {f})) >= 2
+(* ... for extension numbers also when both are directly imported by workspace files *)
+ExtSeenTogether(ws) ==
+  \/ SeenTogether(ws, "extclash")
+  \/ Cardinality(OfKind(ws, "extclash") \cap (Workspace(ws) \cup UNION {ws[f].imports : f \in Workspace(ws)})) >= 2
 
 (* the workspace must be rejected *)
 Invalid(ws) ==
   \/ Cyclic(ws)
-  \/ \E i \in Idx(ws) : ws[i].missing \/ ws[i].kind \in {"unknown", "dup", "syntax"}
-  \/ Cardinality(SharedFiles(ws)) >= 2
+  \/ \E i \in Compiled(ws) : ws[i].missing \/ ws[i].kind \in {"unknown", "dup", "syntax"}
+  \/ SeenTogether(ws, "shared") \/ ExtSeenTogether(ws)
 
-(* Diagnostics every run must report when all files of the workspace are compiled and the
-   import graph is acyclic: one per local defect, in the file that has it ("*" = in whichever
-   of the files involved). *)
+(* Diagnostics every run must report when the import graph is acyclic: one per local defect,
+   in the file that has it ("*" = in whichever of the files involved). *)
 Expect(ws) ==
-  {[file |-> Names[i], kind |-> ws[i].kind] : i \in {j \in Idx(ws) : ws[j].kind \in {"unknown", "dup", "syntax"}}}
-  \cup {[file |-> Names[i], kind |-> "missing"] : i \in {j \in Idx(ws) : ws[j].missing}}
-  \cup (IF Cardinality(SharedFiles(ws)) >= 2 THEN {[file |-> "*", kind |-> "shared"]} ELSE {})
+  {[file |-> Names[i], kind |-> ws[i].kind] : i \in {j \in Compiled(ws) : ws[j].kind \in {"unknown", "dup", "syntax"}}}
+  \cup {[file |-> Names[i], kind |-> "missing"] : i \in {j \in Compiled(ws) : ws[j].missing}}
+  \cup (IF SeenTogether(ws, "shared") THEN {[file |-> "*", kind |-> "shared"]} ELSE {})
+  \cup (IF ExtSeenTogether(ws) THEN {[file |-> "*", kind |-> "extclash"]} ELSE {})
+(* two files of a cross-file kind are compiled but only visible to each other transitively: whether
+   that is diagnosed is not stated here *)
+Unsettled(ws) ==
+  {k \in {"shared", "extclash"} :
+      /\ Cardinality(OfKind(ws, k)) >= 2
+      /\ ~ (IF k = "shared" THEN SeenTogether(ws, k) ELSE ExtSeenTogether(ws))}
+
+(* The input shape in which the ORDER in which two imports are lowered is the only thing that can
+   differ between schedules: a workspace file directly importing two files that are NOT in the
+   workspace and clash with each other. *)
+ImportedOnlyClash(ws) ==
+  \E k \in {"shared", "extclash"} : \E f \in Workspace(ws) :
+     Cardinality({i \in ws[f].imports : ~ ws[i].inws /\ ws[i].kind = k}) >= 2
 
 (* shape, for distinct_nontrivial accounting *)
-Shape(ws) == [n |-> Len(ws), edges |-> Cardinality({<<i, j>> \in Idx(ws) \X Idx(ws) : j \in ws[i].imports}),
+Shape(ws) == [n |-> Len(ws), inws |-> Cardinality(Workspace(ws)),
+              edges |-> Cardinality({<<i, j>> \in Idx(ws) \X Idx(ws) : j \in ws[i].imports}),
               cyclic |-> Cyclic(ws), self |-> SelfImport(ws),
-              kinds |-> {ws[i].kind : i \in Idx(ws)},
-              missing |-> Cardinality({i \in Idx(ws) : ws[i].missing})]
+              kinds |-> {ws[i].kind : i \in Compiled(ws)},
+              missing |-> Cardinality({i \in Compiled(ws) : ws[i].missing}),
+              importedonlyclash |-> ImportedOnlyClash(ws)]
 =============================================================================
